@@ -40,6 +40,8 @@ BLOG=$LOGS/build-$PKG$SUF.log
 # VERIF_REPO=<dir>: build against a scratch copy of the repository instead of /repo (mutation rehearsal only;
 # registered commands never set it)
 MODFLAG=""
+EVD=$ROOT/evidence
+unset VERIF_EVIDENCE_DIR
 if [ -n "${VERIF_REPO:-}" ]; then
   TAG=$(echo "$VERIF_REPO" | md5sum | cut -c1-8)
   MF=$BIN/go-$TAG.mod
@@ -48,6 +50,9 @@ if [ -n "${VERIF_REPO:-}" ]; then
   MODFLAG="-modfile=$MF"
   EXE=$BIN/$PKG$SUF-$TAG.test
   BLOG=$LOGS/build-$PKG$SUF-$TAG.log
+  LOG=$LOGS/$ID-$TIER-seed$VERIF_SEED-$TAG.log
+  EVD=$LOGS/evidence-$TAG; mkdir -p "$EVD"
+  export VERIF_EVIDENCE_DIR=$EVD
 fi
 
 # serialise builds of the same binary (parallel checks share it)
@@ -61,7 +66,7 @@ if [ $? -ne 0 ] || [ ! -x "$EXE" ]; then
 fi
 
 W=$WQ; [ "$TIER" = thorough ] && W=$WT
-rm -f "$ROOT/evidence/$ID.json"
+rm -f "$EVD/$ID.json"
 cd "$ROOT/harness/props/$PKG"
 GORACE="halt_on_error=0" timeout -s QUIT -k 20 $W "$EXE" -test.run "^Test${ID}\$" -test.count=1 -test.timeout=0 >"$LOG" 2>&1
 RC=$?
@@ -74,7 +79,7 @@ if grep -q '^VIOLATION ' "$LOG"; then
   exit 1
 fi
 if [ $RC -eq 0 ]; then
-  if [ ! -s "$ROOT/evidence/$ID.json" ]; then echo "BROKEN property=$ID no evidence written"; exit 2; fi
+  if [ ! -s "$EVD/$ID.json" ]; then echo "BROKEN property=$ID no evidence written"; exit 2; fi
   if grep -q 'WARNING: DATA RACE' "$LOG"; then :; else exit 0; fi
 fi
 if [ $RC -eq 124 ] || [ $RC -eq 137 ]; then
@@ -84,7 +89,7 @@ fi
 # race reports: every pair of call chains is matched against the listed known findings (class data-race)
 if grep -q 'WARNING: DATA RACE' "$LOG" && ! grep -qE '^(panic:|fatal error:)' "$LOG"; then
   if python3 "$ROOT/tools/race_triage.py" "$ID" "$LOG"; then
-    if [ -s "$ROOT/evidence/$ID.json" ] && ! grep -q '^BROKEN ' "$LOG"; then exit 0; fi
+    if [ -s "$EVD/$ID.json" ] && ! grep -q '^BROKEN ' "$LOG"; then exit 0; fi
     echo "BROKEN property=$ID run ended early after a listed race report (log $LOG)"; exit 2
   fi
 fi
